@@ -413,6 +413,28 @@ pub fn check_ids(old: &[u8], new: &[u8]) -> Result<u64, String> {
         n += ids_check::<usize>(old, new, po, pn, "usize")?;
         n += ids_check::<i32>(old, new, po, pn, "i32")?;
     }
+    // empty ranges written with start > end (what trimming a common prefix and a common suffix
+    // independently produces, e.g. 2..0): empty everywhere in the crate, so here too
+    #[allow(clippy::reversed_empty_ranges)]
+    for (or, nr) in [(2..0, 0..new.len()), (0..old.len(), 3..1), (old.len()..0, new.len()..0)] {
+        if or.start <= or.end && nr.start <= nr.end {
+            continue;
+        }
+        let r = subject(|| {
+            let h = IdentifyDistinct::<u32>::new(old, or.clone(), new, nr.clone());
+            (h.old_range(), h.new_range())
+        })
+        .map_err(|p| format!("IdentifyDistinct::<u32> on ranges old {:?} new {:?} (start > end means empty): panic: {}", or, nr, p))?;
+        let want_o = if or.start > or.end { 0 } else { or.len() };
+        let want_n = if nr.start > nr.end { 0 } else { nr.len() };
+        if r.0.len() != want_o || r.1.len() != want_n || r.0.start != or.start || r.1.start != nr.start {
+            return Err(format!(
+                "IdentifyDistinct::<u32> on ranges old {:?} new {:?} returns ranges {:?} / {:?}",
+                or, nr, r.0, r.1
+            ));
+        }
+        n += 1;
+    }
     Ok(n)
 }
 
